@@ -14,6 +14,8 @@ import AskarModel.Model.Aead
 import AskarModel.Lemmas.Aead
 import AskarModel.Model.ResizeBuf
 import AskarModel.Lemmas.ResizeBuf
+import AskarModel.Lemmas.ResizeBufTie
+import AskarModel.Lemmas.ResizeBufTieBox
 
 namespace Askar.Aead
 open Askar.Crypto
@@ -351,5 +353,203 @@ example : (encryptInPlaceP toyPrims ⟨.A128Kw, zeros 16⟩ [] []).run (writerIm
        | .ok (l, a) => .ok (⟨l.data, 24⟩, a) | .err e => .err e | .panic p => .panic p) := by decide
 
 end Buffer
+
+end Askar.Aead
+
+/-! ## The two models of the in-place operations are ONE (the tie between `Model/Aead.lean` and `Model/ResizeBuf.lean`)
+
+`Model/Aead.lean` gives every AEAD / key-wrap operation as a pure FUNCTION on byte lists (all theorems above the section
+"The buffer type as a dimension" are about these); `Model/ResizeBuf.lean` gives the same operations as PROGRAMS over the
+`ResizeBuffer` trait.  Below (`Lemmas/ResizeBufTie.lean`, `Lemmas/ResizeBufTieBox.lean`): the program, run over the list
+implementation without capacity (`specImpl`, `Vec<u8>` / `SecretBytes`), computes the function — result types corresponding
+one to one (`Tie.encOut` / `Tie.decOut`: `ok (buf, n)` ↦ `ok (⟨buf, cap⟩, n)`, `ok buf` ↦ `ok (⟨buf, cap⟩, ())`, the same error,
+the same panic) — for all keys, nonces, associated data and inputs of every length, and every instance of the primitives
+that works IN PLACE (the output is as long as the input: the programs write through `as_mut()`, a slice cannot change its
+length; `Tie.BlockInPlace` follows from `BlockCipher.Lawful`, `Tie.AeadInPlace` is `AeadPrim.Lawful`'s `enc_len` plus the
+same for decryption).  For a primitive that is not length preserving the two models DIFFER (`tie_needs_inPlace`). -/
+
+namespace Askar.Aead
+open Askar.Crypto Askar.ResizeBuf
+
+section Tie
+open Askar.ResizeBuf.Tie
+
+/-- **The programs compute the functions.**  For each of the eight operations (six concrete ones and the two dispatchers of
+    `AnyKey`): `(opP args).run specImpl ⟨input, none⟩` is the result of the function of `Model/Aead.lean` on `input`. -/
+theorem inplace_programs_compute_the_model :
+    (∀ (A : AeadPrim), (∀ k n a m c t, A.enc k n a m = some (c, t) → c.length = m.length) →
+      ∀ (nl : Nat) (key nonce aad input : Bytes),
+        (streamEncryptP A nl key nonce aad).run specImpl ⟨input, none⟩
+          = encOut none (streamEncrypt A nl key input nonce aad)) ∧
+    (∀ (A : AeadPrim), (∀ k n a c t m, A.dec k n a c t = some m → m.length = c.length) →
+      ∀ (nl : Nat) (sk : Kind) (key nonce aad input : Bytes),
+        (streamDecryptP A nl sk key nonce aad).run specImpl ⟨input, none⟩
+          = decOut none (streamDecrypt A nl sk key input nonce aad)) ∧
+    (∀ (C : BlockCipher), (∀ k b, b.length = 16 → (C.enc k b).length = 16) →
+      ∀ (M : Mac) (K : Nat) (key nonce aad input : Bytes),
+        (cbcHmacEncryptP C M K key nonce aad).run specImpl ⟨input, none⟩
+          = encOut none (cbcHmacEncrypt C M K key input nonce aad)) ∧
+    (∀ (fixed5 : Bool) (C : BlockCipher), (∀ k b, b.length = 16 → (C.dec k b).length = 16) →
+      ∀ (M : Mac) (K : Nat) (key nonce aad input : Bytes),
+        (cbcHmacDecryptP fixed5 C M K key nonce aad).run specImpl ⟨input, none⟩
+          = decOut none (cbcHmacDecrypt fixed5 C M K key input nonce aad)) ∧
+    (∀ (C : BlockCipher), (∀ k b, b.length = 16 → (C.enc k b).length = 16) →
+      ∀ (key nonce aad input : Bytes),
+        (kwEncryptP C key nonce aad).run specImpl ⟨input, none⟩ = encOut none (kwEncrypt C key input nonce aad)) ∧
+    (∀ (C : BlockCipher), (∀ k b, b.length = 16 → (C.dec k b).length = 16) →
+      ∀ (key nonce aad input : Bytes),
+        (kwDecryptP C key nonce aad).run specImpl ⟨input, none⟩ = decOut none (kwDecrypt C key input nonce aad)) ∧
+    (∀ (P : Prims), PrimsInPlace P → ∀ (k : Key) (nonce aad input : Bytes),
+        (encryptInPlaceP P k nonce aad).run specImpl ⟨input, none⟩ = encOut none (encryptInPlace P k input nonce aad)) ∧
+    (∀ (fixed5 : Bool) (P : Prims), PrimsInPlace P → ∀ (k : Key) (nonce aad input : Bytes),
+        (decryptInPlaceP fixed5 P k nonce aad).run specImpl ⟨input, none⟩
+          = decOut none (decryptInPlace fixed5 P k input nonce aad)) :=
+  ⟨streamEncryptP_run_spec, streamDecryptP_run_spec, cbcHmacEncryptP_run_spec, cbcHmacDecryptP_run_spec,
+   kwEncryptP_run_spec, kwDecryptP_run_spec, encryptInPlaceP_run_spec, decryptInPlaceP_run_spec⟩
+
+/-- The same with a CAPACITY that admits the one growth the operation performs (`Tie.encGrowth`: the tag; padding + tag; the
+    8-byte block of key wrap; nothing on decryption): the bounded list run is the function's result as well — every
+    error and every panic included, none replaced by `ExceededBuffer`. -/
+theorem inplace_programs_compute_the_model_cap (fixed5 : Bool) (P : Prims) (hP : PrimsInPlace P) (k : Key)
+    (nonce aad input : Bytes) (cap : Option Nat) :
+    (fits cap (input.length + encGrowth P k input.length) = true →
+      (encryptInPlaceP P k nonce aad).run specImpl ⟨input, cap⟩ = encOut cap (encryptInPlace P k input nonce aad)) ∧
+    (fits cap input.length = true →
+      (decryptInPlaceP fixed5 P k nonce aad).run specImpl ⟨input, cap⟩
+        = decOut cap (decryptInPlace fixed5 P k input nonce aad)) :=
+  ⟨encryptInPlaceP_run_cap P hP k nonce aad input cap, decryptInPlaceP_run_cap fixed5 P hP k nonce aad input cap⟩
+
+/-- `crypto_box` / `crypto_box_open` (after their key / nonce checks; the list functions are `Ecdh.cryptoBox` /
+    `Ecdh.cryptoBoxOpen` of `Model/Ecdh.lean`, whose errors carry the kind only — `e` is the `Encryption` error):
+    the programs compute them too (`Tie.boxOut e`: `ok b` ↦ `ok (⟨b, none⟩, ())`, `err _` ↦ `err e`). -/
+theorem cryptoBox_programs_compute_the_model (B : Askar.Ecdh.BoxOps) (own peer : Askar.Ecdh.Key) (sk : Bytes)
+    (hs : own.secret = some sk) (nonce input : Bytes) (hn : nonce.length = 24) (e : Err) :
+    ((∀ k n m, (B.sealBox k n m).1.length = m.length) →
+      (cryptoBoxP (B.sealBox (B.beforenm sk peer.pub) nonce)).run specImpl ⟨input, none⟩
+        = boxOut e (Askar.Ecdh.cryptoBox B peer own input nonce)) ∧
+    ((∀ k n c t m, B.openBox k n c t = some m → m.length = c.length) →
+      (cryptoBoxOpenP 16 e e (B.openBox (B.beforenm sk peer.pub) nonce)).run specImpl ⟨input, none⟩
+        = boxOut e (Askar.Ecdh.cryptoBoxOpen B own peer input nonce)) :=
+  ⟨fun h => cryptoBoxP_run_ecdh B h peer own sk hs nonce input hn e,
+   fun h => cryptoBoxOpenP_run_ecdh B h own peer sk hs nonce input hn e⟩
+
+/-- The in-place hypothesis cannot be dropped — the two models differ for a primitive that is not length preserving
+    (`Tie.growingAead`: ciphertext = message ‖ 0; `Tie.growingCipher`: block ‖ 0): the function returns the longer list, the
+    program panics on the write through `as_mut()`.  No third-party primitive askar uses behaves like this (they take
+    `&mut [u8]`), so this separates the two MODELS, not the code from either of them. -/
+theorem tie_needs_inPlace :
+    (streamEncrypt growingAead 0 [] [7] [] [] = .ok ([7, 0, 0], 1) ∧
+      (streamEncryptP growingAead 0 [] [] []).run specImpl ⟨[7], none⟩ = .panic .copyLen) ∧
+    (streamDecrypt growingAead 0 .Invalid [] [7, 0] [] [] = .ok [7, 0] ∧
+      (streamDecryptP growingAead 0 .Invalid [] [] []).run specImpl ⟨[7, 0], none⟩ = .panic .copyLen) ∧
+    ((match kwEncrypt growingCipher [] (zeros 8) [] [] with
+        | .ok (buf, n) => decide (buf.length = 22 ∧ n = 22) | _ => false) = true ∧
+      (kwEncryptP growingCipher [] [] []).run specImpl ⟨zeros 8, none⟩ = .panic .copyLen) :=
+  ⟨streamEncrypt_needs_inPlace, streamDecrypt_needs_inPlace, kwEncrypt_needs_inPlace⟩
+
+/-- **Over a fixed buffer.**  `encrypt_in_place` / `decrypt_in_place` of any key over ANY `Writer<[u8]>` (repaired variant;
+    position inside the slice) whose slice has room for the growth — `w.pos + encGrowth … ≤ |w.inner|`, nothing needed for
+    decryption — yields exactly what the function of `Model/Aead.lean` yields on the bytes before the position: the same
+    bytes before the new position, position = their number, the same returned value, the slice as long as before; the same
+    error (never `ExceededBuffer` instead); no panic unless the function panics.  (`writer_run_agrees` +
+    `inplace_programs_compute_the_model_cap`.) -/
+theorem writer_inplace_equals_model (fixed5 : Bool) (P : Prims) (hP : PrimsInPlace P) (k : Key) (nonce aad : Bytes)
+    (w : Writer) (hw : w.pos ≤ w.inner.length) :
+    (w.pos + encGrowth P k w.pos ≤ w.inner.length →
+      match encryptInPlace P k (w.inner.take w.pos) nonce aad with
+      | .ok (buf, n) => ∃ w', (encryptInPlaceP P k nonce aad).run (writerImpl true) w = .ok (w', n) ∧
+          w'.inner.take w'.pos = buf ∧ w'.pos = buf.length ∧ w'.inner.length = w.inner.length
+      | .err e => (encryptInPlaceP P k nonce aad).run (writerImpl true) w = .err e
+      | .panic _ => True) ∧
+    (match decryptInPlace fixed5 P k (w.inner.take w.pos) nonce aad with
+      | .ok buf => ∃ w', (decryptInPlaceP fixed5 P k nonce aad).run (writerImpl true) w = .ok (w', ()) ∧
+          w'.inner.take w'.pos = buf ∧ w'.pos = buf.length ∧ w'.inner.length = w.inner.length
+      | .err e => (decryptInPlaceP fixed5 P k nonce aad).run (writerImpl true) w = .err e
+      | .panic _ => True) :=
+  ⟨writer_encrypt_any P hP k nonce aad w hw, writer_decrypt_any fixed5 P hP k nonce aad w hw⟩
+
+/-- With the tag sizes of the Rust instantiation (`Prims.Lawful`) the room needed is what a caller computes from the public
+    API: `aead_padding(msg_len) + aead_params().tag_length`. -/
+theorem writer_room_is_padding_plus_tag (P : Prims) (hP : P.Lawful) (k : Key) (n : Nat) :
+    encGrowth P k n = aeadPadding k n + k.alg.params.2 :=
+  encGrowth_eq P hP k n
+
+/-- For a key of the right length and lawful in-place primitives the function never panics (`wrong_lengths_error`), so the
+    `True` branch above is never taken: over a Writer with room, `encrypt_in_place` is `Ok` or an error — the function's. -/
+theorem writer_inplace_total (fixed5 : Bool) (P : Prims) (hL : P.Lawful) (k : Key) (hk : k.bytes.length = k.alg.keyLen)
+    (buf nonce aad : Bytes) :
+    (encryptInPlace P k buf nonce aad).isPanic = false ∧ (decryptInPlace fixed5 P k buf nonce aad).isPanic = false :=
+  ⟨Lemmas.encryptInPlace_noPanic P hL k hk buf nonce aad, Lemmas.decryptInPlace_noPanic fixed5 P hL k hk buf nonce aad⟩
+
+/-- **`cbcHmac_roundtrip` over a Writer.**  AES-CBC-HMAC over `Writer::from_slice_position(m ‖ rest, |m|)` with
+    `|rest| ≥ padding + K`: encryption succeeds, leaves exactly the function's `buf` (|m| + padding + K bytes) before the
+    position and returns `ctext_end`; decryption over the Writer encryption left returns the message, position |m|, in a
+    slice as long as the original one — every message length, the D5 switch either way. -/
+theorem cbcHmac_roundtrip_over_writer (fixed : Bool) (C : BlockCipher) (hC : C.Lawful) (M : Mac) (hM : M.Lawful) (K : Nat)
+    (key m nonce aad rest : Bytes) (hn : nonce.length = 16) (ha : aadTooLong aad = false) (hk : key.length = 2 * K)
+    (hK : K ≤ M.outLen) (hcap : cbcPaddingLength m.length + K ≤ rest.length) :
+    ∃ buf rest' rest'',
+      cbcHmacEncrypt C M K key m nonce aad = .ok (buf, m.length + cbcPaddingLength m.length) ∧
+      (cbcHmacEncryptP C M K key nonce aad).run (writerImpl true) ⟨m ++ rest, m.length⟩
+        = .ok (⟨buf ++ rest', buf.length⟩, m.length + cbcPaddingLength m.length) ∧
+      buf.length = m.length + cbcPaddingLength m.length + K ∧
+      buf.length + rest'.length = m.length + rest.length ∧
+      (cbcHmacDecryptP fixed C M K key nonce aad).run (writerImpl true) ⟨buf ++ rest', buf.length⟩
+        = .ok (⟨m ++ rest'', m.length⟩, ()) ∧
+      m.length + rest''.length = m.length + rest.length :=
+  Tie.cbcHmac_roundtrip_over_writer fixed C hC M hM K key m nonce aad rest hn ha hk hK hcap
+
+/-- **`kw_model_refines_rfc3394` over a Writer.**  AES key wrap over `Writer::from_slice_position(p ‖ rest, |p|)` with 8 spare
+    bytes leaves exactly the RFC 3394 wrap of `p` before the position `|p| + 8`; unwrap over ANY Writer holding `c` before
+    its position leaves the key data of the specification exactly when the specification accepts `c`, and is the
+    `Encryption` error otherwise (the length message for a length that is not a multiple of 8). -/
+theorem kw_model_refines_rfc3394_over_writer (C : BlockCipher) (hC : C.Lawful) (key : Bytes) :
+    (∀ p rest : Bytes, p.length % 8 = 0 → 8 ≤ rest.length →
+      ∃ rest', (kwEncryptP C key [] []).run (writerImpl true) ⟨p ++ rest, p.length⟩ =
+          .ok (⟨(KeyWrap.wrapWith (Lemmas.liftBA (C.enc key)) KeyWrap.defaultIV p.toByteArray).toList ++ rest',
+                p.length + 8⟩, p.length + 8)
+        ∧ rest'.length + 8 = rest.length) ∧
+    (∀ c rest : Bytes,
+      match KeyWrap.unwrapWith (Lemmas.liftBA (C.dec key)) KeyWrap.defaultIV c.toByteArray with
+      | some p => ∃ rest', (kwDecryptP C key [] []).run (writerImpl true) ⟨c ++ rest, c.length⟩ =
+            .ok (⟨p.toList ++ rest', p.toList.length⟩, ())
+          ∧ p.toList.length + rest'.length = c.length + rest.length
+      | none => (kwDecryptP C key [] []).run (writerImpl true) ⟨c ++ rest, c.length⟩ =
+            .err ⟨.Encryption, if c.length % 8 ≠ 0 then .kwLen else .default⟩) :=
+  Tie.kw_model_refines_rfc3394_over_writer C hC key
+
+/-! ### non-vacuity (toy primitives) -/
+
+/-- the correspondence of the result types, spelled out -/
+example (cap : Option Nat) (buf : Bytes) (n : Nat) : encOut cap (.ok (buf, n)) = .ok (⟨buf, cap⟩, n) := rfl
+example (cap : Option Nat) (e : Err) : encOut cap (.err e) = .err e ∧ decOut cap (.err e) = .err e := ⟨rfl, rfl⟩
+example (cap : Option Nat) (p : Panic) : encOut cap (.panic p) = .panic p ∧ decOut cap (.panic p) = .panic p := ⟨rfl, rfl⟩
+example (cap : Option Nat) (buf : Bytes) : decOut cap (.ok buf) = .ok (⟨buf, cap⟩, ()) := rfl
+/-- the hypotheses are satisfiable: the toy primitives work in place (and are lawful) -/
+example : PrimsInPlace toyPrims ∧ toyPrims.Lawful := ⟨toyPrims_inPlace, Lemmas.toyPrims_lawful⟩
+example : AeadInPlace toyAead ∧ BlockInPlace toyCipher := ⟨toyAead_inPlace, BlockInPlace.of_lawful Lemmas.toyCipher_lawful⟩
+/-- every branch of the correspondence occurs on concrete inputs: `ok`, an error, a panic (a key that is too short reaches
+    `&key[K..]` in both models) -/
+example : (match (encryptInPlaceP toyPrims ⟨.A128CbcHs256, zeros 32⟩ (zeros 16) [9]).run specImpl ⟨[1, 2, 3], none⟩,
+      encryptInPlace toyPrims ⟨.A128CbcHs256, zeros 32⟩ [1, 2, 3] (zeros 16) [9] with
+    | .ok (l, a), .ok (buf, n) => decide (l.data = buf ∧ a = n ∧ n = 16 ∧ buf.length = 32) | _, _ => false) = true := by decide
+example : (encryptInPlaceP toyPrims ⟨.C20P, zeros 32⟩ (zeros 11) []).run specImpl ⟨[1, 2, 3], none⟩ = .err ⟨.InvalidNonce, .default⟩ ∧
+    encryptInPlace toyPrims ⟨.C20P, zeros 32⟩ [1, 2, 3] (zeros 11) [] = .err ⟨.InvalidNonce, .default⟩ := by
+  constructor <;> decide
+example : (encryptInPlaceP toyPrims ⟨.A128CbcHs256, zeros 3⟩ (zeros 16) []).run specImpl ⟨[1, 2, 3], none⟩ = .panic .sliceOob ∧
+    encryptInPlace toyPrims ⟨.A128CbcHs256, zeros 3⟩ [1, 2, 3] (zeros 16) [] = .panic .sliceOob := by
+  constructor <;> decide
+example : (match (decryptInPlaceP true toyPrims ⟨.A128Kw, zeros 16⟩ [] []).run specImpl ⟨kwIv, none⟩,
+      decryptInPlace true toyPrims ⟨.A128Kw, zeros 16⟩ kwIv [] [] with
+    | .ok (l, _), .ok buf => decide (l.data = buf ∧ buf = []) | _, _ => false) = true := by decide
+/-- a Writer with room: 3 message bytes, 29 stale bytes; the run is the function's result, position 32 -/
+example : (match (encryptInPlaceP toyPrims ⟨.A128CbcHs256, zeros 32⟩ (zeros 16) [9]).run (writerImpl true)
+        ⟨[1, 2, 3] ++ List.replicate 29 0xEE, 3⟩,
+      encryptInPlace toyPrims ⟨.A128CbcHs256, zeros 32⟩ [1, 2, 3] (zeros 16) [9] with
+    | .ok (w', a), .ok (buf, n) => decide (w'.inner.take w'.pos = buf ∧ w'.pos = 32 ∧ a = n) | _, _ => false) = true := by decide
+/-- the room hypothesis of `writer_inplace_equals_model` is met / is `aead_padding + tag_length` -/
+example : encGrowth toyPrims ⟨.A128CbcHs256, zeros 32⟩ 3 = 29 ∧ aeadPadding ⟨.A128CbcHs256, zeros 32⟩ 3 + 16 = 29 := by decide
+
+end Tie
 
 end Askar.Aead
